@@ -19,6 +19,7 @@ INVARIANT Represented
 INVARIANT OverlapOfUnnormalised
 INVARIANT NormsAreProductOfFactors
 INVARIANT SpinConstants
+INVARIANT RunningMeanIsWeightedMean
 CHECK_DEADLOCK FALSE
 """
 
@@ -177,6 +178,61 @@ def run(chk: Check):
                 if abs(complex(be[b]) - ref) > 1e-10 * max(1, abs(ref)) or abs(complex(bw[b]) - np.sum(ovb)) > 1e-10 * abs(np.sum(ovb)):
                     chk.violation("sampler-free-block", f"_block_scan_free block {b}: energy {complex(be[b])} / weight {complex(bw[b])} differ "
                                   f"from sum E_L overlap / sum overlap = {ref} / {np.sum(ovb)}", {"block": b})
+    # ---------------------------------------------------------- (e) the free-projection driver's bookkeeping
+    import contextlib, io, os
+    from ad_afqmc import config, driver
+    from jax import random
+    I = wf.make_instance(900, rng, "uhf", 3, 2, 1, 2, 1, False, spin_dep=True, want=())
+    trial, wd, hd0, hm = wf.build_lib(I)
+    for k_ in ("h1", "chol"):
+        hd0[k_] = hd0[k_] * (SC if k_ == "h1" else np.sqrt(SC))
+    hd0["ene0"] = 0.2
+    wd["rdm1"] = jnp.array(np.asarray(trial._calc_rdm1(wd)).real)
+    prop = propagation.propagator_unrestricted(dt=0.01, n_walkers=4, n_exp_terms=10)
+    ntraj, nblk = 3, 2
+    smp = sampling.sampler(n_prop_steps=2, n_ene_blocks=ntraj, n_sr_blocks=1, n_blocks=nblk)
+    q0 = np.linalg.qr(I["walkers"][0][0])[0]
+    q1 = np.linalg.qr(I["walkers"][0][1])[0]
+    iw = [jnp.array(np.tile(q0[None], (4, 1, 1))), jnp.array(np.tile(q1[None], (4, 1, 1)))]
+    buf = io.StringIO()
+    d = chk.scratch("fpdriver")
+    old = os.getcwd()
+    os.chdir(d)
+    try:
+        with contextlib.redirect_stdout(buf):
+            driver.fp_afqmc(dict(hd0), hm, prop, trial, dict(wd), smp, None, {"seed": 11, "save_walkers": False}, config.not_MPI(),
+                            init_walkers=[1 * iw[0], 1 * iw[1]])
+        raw = np.loadtxt(d / "samples_raw.dat", dtype=complex)
+    finally:
+        os.chdir(old)
+    # the same trajectories through the sampler, with the driver's key chain
+    hd = hm.build_measurement_intermediates(dict(hd0), trial, wd)
+    hd = hm.build_propagation_intermediates(hd, prop, trial, wd)
+    pd = prop.init_prop_data(trial, wd, hd, [1 * iw[0], 1 * iw[1]])
+    pd["key"] = random.PRNGKey(11)
+    tot_w = np.zeros(nblk, dtype=complex)
+    tot_we = np.zeros(nblk, dtype=complex)
+    first = []
+    for n in range(ntraj):
+        ptr, es, ws, pd["key"] = smp.propagate_free(hm, hd, prop, pd, trial, wd)
+        tot_w += np.asarray(ws)
+        tot_we += np.asarray(ws) * np.asarray(es)
+        first.append((complex(ws[0]), complex(es[0])))
+    last = [l for l in buf.getvalue().splitlines() if l.strip().startswith(f"{ntraj - 1}:")]
+    printed = None
+    if last:
+        import re
+        nums = re.findall(r"[-+]?\d*\.\d+(?:[eE][-+]?\d+)?[-+]\d*\.\d+(?:[eE][-+]?\d+)?j", last[-1])
+        printed = np.array([complex(x) for x in nums]) if len(nums) == nblk else None
+    chk.case(("fpdriver", 0))
+    chk.traces += 1
+    want = tot_we / tot_w
+    ok_raw = raw.shape == (ntraj, 2) and all(abs(raw[n][0] - first[n][0]) <= 1e-6 * abs(first[n][0]) and
+                                            abs(raw[n][1] - first[n][1]) <= 1e-6 * max(1, abs(first[n][1])) for n in range(ntraj))
+    ok_mean = printed is not None and np.allclose(printed, want, rtol=1e-6, atol=1e-7)
+    if not (ok_raw and ok_mean):
+        chk.violation("fp_afqmc:bookkeeping", f"driver.fp_afqmc: running energies printed {printed} vs weighted means of the sampler's "
+                      f"trajectories {want}; samples_raw.dat ok={ok_raw}", {"printed": None if printed is None else [complex(x) for x in printed]})
     # ---- TLC judges
     wdir = chk.scratch("fptrace")
     (wdir / "out").mkdir(exist_ok=True)
